@@ -133,6 +133,9 @@ def pdks():
     out["asap7"] = {"module": a7, "compile": a7.compile, "table": a7tab, "xtors": {k: v for k, v in a7p._mos_modules.items()},
                     "defaults": lambda n: None, "regname": "asap7_hdl21.pdk", "regmod": a7p}
     sptab = [("mos", None, (h.MosType.NMOS,), spp.Nmos, Mos), ("mos", None, (h.MosType.PMOS,), spp.Pmos, Mos)]
+    # ... and its four devices by model name
+    sptab += [("mos", "nmos", (h.MosType.NMOS,), spp.Nmos, Mos), ("mos", "pmos", (h.MosType.PMOS,), spp.Pmos, Mos),
+              ("mos", "nmos_model", (h.MosType.NMOS, "model"), spp.NmosModel, Mos), ("mos", "pmos_model", (h.MosType.PMOS, "model"), spp.PmosModel, Mos)]
     from hdl21.prefix import µ
 
     out["sample"] = {"module": sp, "compile": sp.compile, "table": sptab, "xtors": {(h.MosType.NMOS,): spp.Nmos, (h.MosType.PMOS,): spp.Pmos},
